@@ -24,6 +24,17 @@ func newVC(e *Engine, fn *ssa.Function, known map[string]Sort, unmod map[string]
 // BuildVC generates the verification condition for fn (multi-pass until the
 // set of heaps and the per-loop modified sets are stable).
 func (e *Engine) BuildVC(fn *ssa.Function, prop string) (vc *VC, err error) {
+	return e.buildVC(fn, prop, false)
+}
+
+// BuildVCAlt: the same with the alternative loop invariant sets (`loop N altinvariant`) of fn's
+// contract in place of the primary ones. Either set is a complete inductive argument; the
+// alternative is tried only when the primary one leaves an obligation open (main.go).
+func (e *Engine) BuildVCAlt(fn *ssa.Function, prop string) (vc *VC, err error) {
+	return e.buildVC(fn, prop, true)
+}
+
+func (e *Engine) buildVC(fn *ssa.Function, prop string, alt bool) (vc *VC, err error) {
 	defer func() {
 		if r := recover(); r != nil {
 			err = fmt.Errorf("VC generation for %s failed: %v", fn, r)
@@ -34,6 +45,7 @@ func (e *Engine) BuildVC(fn *ssa.Function, prop string) (vc *VC, err error) {
 	for pass := 0; pass < 8; pass++ {
 		vc = newVC(e, fn, known, unmod)
 		vc.prop = prop
+		vc.altLoops = alt
 		vc.noSafety = e.sweepMode
 		vc.runTop()
 		stable := len(vc.known) == len(known)
@@ -448,6 +460,11 @@ func (fr *Frame) loopInvariants(li *loopInfo) []*Clause {
 	}
 	if fc == nil {
 		return nil
+	}
+	if fr.vc.altLoops && fr.top {
+		if a := fc.AltLoops[li.ordinal]; len(a) > 0 {
+			return a
+		}
 	}
 	return fc.Loops[li.ordinal]
 }
